@@ -87,6 +87,50 @@ def lambda_src(kind, body_of):
     return 'lambda x: ' + body_of('x')
 
 
+
+# ---------------------------------------------------------------------------------------------- helper-built steps
+# Steps of the kind applications write: one lambda per helper, the value is captured from the call.  Applying a helper twice gives
+# two chained steps that share ONE code object and differ only in the captured value.
+
+def _hf_ent_gt(q, n): return q.filter(lambda x: x.a > n)
+def _hf_ent_ne(q, n): return q.filter(lambda x: x.a != n)
+def _hf_val_gt(q, n): return q.filter(lambda x: x > n)
+def _hf_val_ne(q, n): return q.filter(lambda x: x != n)
+def _hf_pair_gt(q, n): return q.filter(lambda x_n, x_a: x_a > n)
+def _hf_pair_ne(q, n): return q.filter(lambda x_n, x_a: x_a != n)
+def _hw_p_gt(q, n): return q.where(lambda p: p.a > n)
+def _hw_p_ne(q, n): return q.where(lambda p: p.a != n)
+def _hw_x_ent_gt(q, n): return q.where(lambda x: x.a > n)
+def _hw_x_ent_ne(q, n): return q.where(lambda x: x.a != n)
+def _hw_x_val_gt(q, n): return q.where(lambda x: x > n)
+def _hw_x_val_ne(q, n): return q.where(lambda x: x != n)
+def _ho_ent(q, k): return q.order_by(lambda x: x.a * k)
+def _ho_val(q, k): return q.order_by(lambda x: x * k)
+
+HPRED = {'gt': lambda n: (lambda v: v > n), 'ne': lambda n: (lambda v: v != n)}
+
+
+def apply_helper(st, op):
+    """['hfilter'|'hwhere', 'gt'|'ne', n]  /  ['horder', k]   (k = 1 | -1) -> (query, expectation)"""
+    kind, name = st.kind, op[0]
+    if not applicable(kind, 'a'): raise Unsupported(name)
+    if name == 'horder':
+        if kind == 'pair': raise Unsupported(name)
+        q = (_ho_ent if kind == 'ent' else _ho_val)(st.q, op[1])
+        return q, ('order', [('a', op[1] < 0)])
+    which, n = op[1], op[2]
+    if name == 'hfilter':
+        fn = {('ent', 'gt'): _hf_ent_gt, ('ent', 'ne'): _hf_ent_ne, ('a', 'gt'): _hf_val_gt, ('a', 'ne'): _hf_val_ne,
+              ('pair', 'gt'): _hf_pair_gt, ('pair', 'ne'): _hf_pair_ne}[(kind, which)]
+    else:
+        if st.var == 'p': fn = {'gt': _hw_p_gt, 'ne': _hw_p_ne}[which]
+        elif st.varkind == 'ent': fn = {'gt': _hw_x_ent_gt, 'ne': _hw_x_ent_ne}[which]
+        elif st.varkind == 'a': fn = {'gt': _hw_x_val_gt, 'ne': _hw_x_val_ne}[which]
+        else: raise Unsupported(name)
+    pv = HPRED[which](n)
+    return fn(st.q, n), ('filter', lambda item: pv(field(kind, item, 'a')))
+
+
 class Unsupported(Exception):
     """the chain is not expressible for this item kind (generator error, not a finding)"""
 
@@ -202,6 +246,11 @@ def apply_op(P, st, op):
         new = State(q, kind, st.var, st.ordered, st.desc + '.%s(%s)' % (name, op[1]))
         new.explicit_distinct = st.explicit_distinct; new.nested = st.nested
         return new, ('filter', pred_fn(kind, op[1]))
+    if name in ('hfilter', 'hwhere', 'horder'):
+        q, exp = apply_helper(st, op)
+        new = State(q, kind, st.var, True if name == 'horder' else st.ordered, st.desc + '.%s(%s)' % (name, ', '.join(map(str, op[1:]))))
+        new.explicit_distinct = st.explicit_distinct; new.nested = st.nested
+        return new, exp
     if name == 'kw':
         f, val = KWPREDS[op[1]]
         if kind != 'ent': raise Unsupported('kw')
@@ -491,7 +540,7 @@ def classify(m):
     otherwise 'unlisted:<fine-grained class>' (which the runner reports as a VIOLATION)."""
     info, op, cls = m.info, m.op, m.cls
     if info is None or op is None: return 'unlisted:' + cls
-    name = op[0]
+    name = {'hfilter': 'filter', 'hwhere': 'where', 'horder': 'order'}.get(op[0], op[0])
     suffix = cls.split(':', 1)[1] if ':' in cls else ''
     nested = info['nested']
     projection = info['kind'] != 'ent'
@@ -511,7 +560,7 @@ def classify(m):
         if name in AGGR and suffix == 'EXC:AssertionError': return 'limited-subquery-aggregate-AssertionError'
         if name == 'first' and suffix == 'wrong-value': return 'limited-subquery-order-applied-before-limit'
         if name == 'random' and suffix == 'not-a-sample': return 'limited-subquery-order-applied-before-limit'
-        return 'unlisted:' + cls
+        # otherwise (e.g. q.limit(None, None): no actual window) the query is judged like any other
     auto_distinct_on = projection and not info['ordered'] and info['explicit'] is None
     if name == 'order' and suffix == 'not-a-permutation' and auto_distinct_on: return 'order_by-drops-automatic-distinct'
     if name == 'random' and suffix == 'not-a-sample' and auto_distinct_on: return 'random-drops-automatic-distinct'
